@@ -38,15 +38,15 @@ type OblOut struct {
 }
 
 type RunOut struct {
-	Harness       string             `json:"harness"`
-	Cfg           *HarnessCfg        `json:"cfg"`
-	Result        *HarnessResult     `json:"result"`
-	Obligations   []OblOut           `json:"obligations"`
-	Cexs          []*Cex             `json:"counterexamples"`
-	Funcs         []FuncOut          `json:"functions_encoded"`
-	Solver        map[string]*SolverStat `json:"solver"`
-	Verdict       string             `json:"verdict"` // holds | violated | inconclusive | vacuous
-	Error         string             `json:"error,omitempty"`
+	Harness     string                 `json:"harness"`
+	Cfg         *HarnessCfg            `json:"cfg"`
+	Result      *HarnessResult         `json:"result"`
+	Obligations []OblOut               `json:"obligations"`
+	Cexs        []*Cex                 `json:"counterexamples"`
+	Funcs       []FuncOut              `json:"functions_encoded"`
+	Solver      map[string]*SolverStat `json:"solver"`
+	Verdict     string                 `json:"verdict"` // holds | violated | inconclusive | vacuous
+	Error       string                 `json:"error,omitempty"`
 }
 
 type FuncOut struct {
@@ -248,12 +248,23 @@ func pickCfg(cfgs map[string]*HarnessCfg, name, tier string) *HarnessCfg {
 	apply("*")
 	apply("*@" + tier)
 	// prefix groups: keys ending in '*'
+	// (shorter prefixes first, so that the more specific key wins; deterministic)
+	keys := make([]string, 0, len(cfgs))
 	for k := range cfgs {
+		keys = append(keys, k)
+	}
+	sort.Slice(keys, func(i, j int) bool {
+		if len(keys[i]) != len(keys[j]) {
+			return len(keys[i]) < len(keys[j])
+		}
+		return keys[i] < keys[j]
+	})
+	for _, k := range keys {
 		if strings.HasSuffix(k, "*") && k != "*" && strings.HasPrefix(name, strings.TrimSuffix(k, "*")) {
 			apply(k)
 		}
 	}
-	for k := range cfgs {
+	for _, k := range keys {
 		if strings.HasSuffix(k, "*@"+tier) && k != "*@"+tier && strings.HasPrefix(name, strings.TrimSuffix(k, "*@"+tier)) {
 			apply(k)
 		}
